@@ -70,6 +70,7 @@ class Interp:
         self.tr = tr
         self.env: dict[str, Any] = {}
         self.angles: dict[str, Any] = {}
+        self.sym_env: dict[str, Any] = {}  # cse temporaries that are rational-linear combinations of scalar symbols (angle expressions)
         for a in args:
             nm = str(a.name) if isinstance(a, ArraySymbol) else a.name
             if isinstance(a, ArraySymbol):
@@ -83,6 +84,9 @@ class Interp:
             if isinstance(stmt, ast.Assign):
                 if len(stmt.targets) != 1 or not isinstance(stmt.targets[0], ast.Name):
                     raise NpvcUnsupported("assignment target")
+                sym = self.to_sympy(stmt.value)
+                if sym is not None:
+                    self.sym_env[stmt.targets[0].id] = sym
                 self.env[stmt.targets[0].id] = self.ev(stmt.value)
             elif isinstance(stmt, ast.Return):
                 return self.num(self.ev(stmt.value))
@@ -172,9 +176,39 @@ class Interp:
             return self.call(n)
         raise NpvcUnsupported(f"node {type(n).__name__}")
 
+    def to_sympy(self, n):
+        """SymPy expression of a node built from scalar symbols, integer/rational constants, + - * /  (else None)."""
+        if isinstance(n, ast.Name):
+            if n.id in self.sym_env:
+                return self.sym_env[n.id]
+            v = self.env.get(n.id)
+            if isinstance(v, tuple) and v and v[0] == "symbol":
+                return v[1]
+            return None
+        if isinstance(n, ast.Constant) and isinstance(n.value, (int, float)) and not isinstance(n.value, bool):
+            return sp.Rational(str(n.value)) if isinstance(n.value, float) else sp.Integer(n.value)
+        if isinstance(n, ast.UnaryOp) and isinstance(n.op, ast.USub):
+            v = self.to_sympy(n.operand)
+            return None if v is None else -v
+        if isinstance(n, ast.BinOp) and isinstance(n.op, (ast.Add, ast.Sub, ast.Mult, ast.Div)):
+            a, b = self.to_sympy(n.left), self.to_sympy(n.right)
+            if a is None or b is None:
+                return None
+            if isinstance(n.op, ast.Add):
+                return a + b
+            if isinstance(n.op, ast.Sub):
+                return a - b
+            if isinstance(n.op, ast.Mult):
+                return a * b if (a.is_number or b.is_number) else None
+            return a / b if b.is_number else None
+        return None
+
     def angle_of(self, n) -> Ang:
         """The argument of cos/sin/exp(1j*..) as an angle."""
         tr = self.tr
+        sym = self.to_sympy(n)
+        if sym is not None and not sym.is_number:
+            return tr.angle(sym)
         if isinstance(n, ast.Name) and n.id in self.env:
             v = self.env[n.id]
             if isinstance(v, tuple) and v[0] == "symbol":
@@ -521,11 +555,25 @@ def c08_codegen_obligations(chk, tier: str) -> None:
         BZ = L.BoostZMatrix(b, nev)
         sym = K.boostz_spec(tr, tr.val(b))
         code_vs_symbolic(chk, f"BoostZMatrix.numpycode[{tag}]", F + "_BoostZMatrixImplementation._numpycode", BZ, tr, req, sym, cse)
+        a2 = sp.Symbol("a2", real=True)
         for cls in (L.RotationYMatrix, L.RotationZMatrix):
             tr = Tr(f"c{cls.__name__}{int(cse)}")
             Rm = cls(a, nev)
             sym = tr.val(Rm.as_explicit())
             code_vs_symbolic(chk, f"{cls.__name__}.numpycode[{tag}]", F + f"_{cls.__name__}Implementation._numpycode", Rm, tr, [], sym, cse)
+            # composite angle arguments (a printer template that pastes '-{sin}' is only wrong when sin prints as a sum)
+            for kind, ang in (("sum", a + a2), ("neg", -a), ("double", 2 * a), ("diff", a - a2)):
+                tr = Tr(f"c{cls.__name__}{int(cse)}{kind}")
+                Rm = cls(ang, nev)
+                sym = tr.val(Rm.as_explicit())
+                code_vs_symbolic(chk, f"{cls.__name__}(angle={kind}).numpycode[{tag}]", F + f"_{cls.__name__}Implementation._numpycode", Rm, tr, [], sym, cse)
+        for kind, bexpr in (("neg", -b), ("half", b / 2)):
+            tr = Tr(f"cBz{int(cse)}{kind}")
+            bv = tr.val(b).re
+            req = [bv > -1, bv < 1]
+            BZ = L.BoostZMatrix(bexpr, nev)
+            sym = K.boostz_spec(tr, tr.scalar(bexpr))
+            code_vs_symbolic(chk, f"BoostZMatrix(beta={kind}).numpycode[{tag}]", F + "_BoostZMatrixImplementation._numpycode", BZ, tr, req, sym, cse)
         # metric / negative momentum
         tr = Tr(f"cNeg{int(cse)}")
         NM = L.NegativeMomentum(p)
